@@ -25,6 +25,9 @@ def specs_for(ctx):
         # a target that modifies its argument in place: the reported x must still be a point it was CALLED at
         dict(D=2, target="sphere", box="sym", noise="det", mutate_arg=True, options=dict(max_fun_evals=60), seed=ctx.seed * 10 + 6),
         dict(D=2, target="abs", box="log", noise="det", mutate_arg=True, options=dict(max_fun_evals=60), seed=ctx.seed * 10 + 7),
+        # stobads=True on a DETERMINISTIC target: the option is reset for such targets, the default incumbent policy applies
+        dict(D=2, target="rosen", box="sym", noise="det", options=dict(max_fun_evals=80, stobads=True, complete_poll=True), seed=ctx.seed * 10 + 10),
+        dict(D=2, target="plateau", box="sym", noise="det", options=dict(max_fun_evals=70, stobads=True), seed=ctx.seed * 10 + 11),
         # budgets that end the run right after the initial design / in the first iterations
         dict(D=2, target="plateau", box="sym", noise="det", options=dict(max_fun_evals=8), seed=ctx.seed * 10 + 8),
         dict(D=3, target="sphere", box="sym", noise="det", options=dict(max_fun_evals=12, max_iter=1), seed=ctx.seed * 10 + 9),
